@@ -39,7 +39,8 @@ def units(tier, seed):
     if tier == 'quick':
         hs = [['config1', 'upload1', 'search'], ['search', 'reconnect-before-cleanup', 'config2', 'config1'],
               ['config1', 'reconnect-after-cleanup', 'upload2', 'search', 'upload1'], ['foreign-sid', 'unknown-type'],
-              ['config1', 'upload1', 'reconnect-before-cleanup', 'search', 'config2'], ['upload1']]
+              ['config1', 'upload1', 'reconnect-before-cleanup', 'search', 'config2'], ['upload1'],
+              ['config1', 'upload1', 'search-other', 'search'], ['no-sid', 'config-unstorable', 'config1', 'config-malformed', 'upload-malformed']]
         us.append(('tcp/0', {'kind': 'tcp', 'histories': hs[:3]}))
         us.append(('tcp/1', {'kind': 'tcp', 'histories': hs[3:]}))
     else:
@@ -51,6 +52,46 @@ def units(tier, seed):
         for k in range(0, len(hs), 12):
             us.append(('tcp/%d' % k, {'kind': 'tcp', 'histories': hs[k:k + 12]}))
     return sorted(us, key=lambda u: not u[0].startswith('tcp'))
+
+
+def messages_for(fx, sid, ev):
+    """the protocol messages (dicts, before pickling) of one event - used by the virtual step AND by the loopback-TCP replay"""
+    def msg(typ, content, sid_=sid, **extra):
+        d = {'type': typ, 'sid': sid_, 'content': content}
+        d.update(extra)
+        if sid_ == '__omit__':
+            del d['sid']
+        return d
+    if ev in ('config1', 'config2'):
+        return [msg('config', pickle.dumps(fx.c1 if ev == 'config1' else fx.c2))]
+    if ev in ('upload1', 'upload2'):
+        return [msg('upload_edb', fx.e1 if ev == 'upload1' else fx.e2)]
+    if ev == 'search':
+        return [msg('token', fx.tok, token_digest=fx.tok_digest)]
+    if ev == 'search-other':
+        # another keyword's token under the SAME correlation value: token_digest is an opaque field the server echoes, the
+        # answer has to come from the token
+        return [msg('token', fx.tok2, token_digest=fx.tok_digest)]
+    if ev == 'foreign-sid':
+        # foreign service ids, most of them adversarially close to the connection's own: same first 8 characters (what the logs
+        # print), the other case, one character more or less, and an unrelated one
+        own = sid
+        others = ['someone-else', own[:8] + ('Z' if own[8:9] != 'Z' else 'Y') + own[9:], own.swapcase(), own + '0', own[:-1]]
+        assert own not in others
+        return [msg('config', pickle.dumps(fx.c2), o) for o in others]
+    if ev == 'unknown-type':
+        return [msg('bogus', b'x')]
+    if ev == 'no-sid':                    # a configuration message without any sid field: not addressed to this service
+        return [msg('config', pickle.dumps(fx.c2), '__omit__')]
+    if ev == 'config-unstorable':         # a configuration that unpickles but cannot be stored as JSON (bytes value)
+        return [msg('config', pickle.dumps(dict(fx.c2, extra=b'not json')))]
+    if ev == 'config-malformed':          # a configuration message whose content is not a pickle
+        return [msg('config', b'this is not a pickle')]
+    if ev == 'upload-malformed':          # an index upload without any content
+        return [msg('upload_edb', None)]
+    if ev == 'search-malformed':          # a token of the wrong length
+        return [msg('token', b'xx', token_digest=b'')]
+    raise KeyError(ev)
 
 
 _fx = {}
@@ -125,61 +166,14 @@ class ServerSystem:
             probs += self._disk_invariant(s, ev)
             return probs
         before = self._disk(s)
-        if ev == 'config1' or ev == 'config2':
-            which = 1 if ev == 'config1' else 2
-            cfg = fx.c1 if which == 1 else fx.c2
-            s.conn.send('config', pickle.dumps(cfg))
-            accept = md['state'] == 0
-            reply_type = 'config'
-        elif ev in ('upload1', 'upload2'):
-            which = 1 if ev == 'upload1' else 2
-            s.conn.send('upload_edb', fx.e1 if which == 1 else fx.e2)
-            accept = md['state'] == 1
-            reply_type = 'upload_edb'
-        elif ev == 'search':
-            s.conn.send('token', fx.tok, token_digest=fx.tok_digest)
-            accept = md['state'] == 2
-            reply_type = 'result'
-        elif ev == 'search-other':
-            # another keyword's token under the SAME correlation value: token_digest is an opaque field the server echoes, the
-            # answer has to come from the token
-            s.conn.send('token', fx.tok2, token_digest=fx.tok_digest)
-            accept = md['state'] == 2
-            reply_type = 'result'
-        elif ev == 'foreign-sid':
-            # three foreign service ids, two of them adversarially close to the connection's own: same first 8 characters (what the
-            # logs print), the other case, and an unrelated one
-            own = s.sid
-            for other in ('someone-else', own[:8] + ('Z' if own[8:9] != 'Z' else 'Y') + own[9:], own.swapcase(), own + '0', own[:-1]):
-                assert other != own
-                s.conn.send('config', pickle.dumps(fx.c2), sid=other)
-            accept = False
-            reply_type = 'config'
-        elif ev == 'unknown-type':
-            s.conn.send('bogus', b'x')
-            accept = False
-            reply_type = None
-        elif ev == 'no-sid':                    # a configuration message without any sid field: not addressed to this service
-            s.conn.send('config', pickle.dumps(fx.c2), sid='__omit__')
-            accept = False
-            reply_type = 'config'
-        elif ev == 'config-unstorable':         # a configuration that unpickles but cannot be stored as JSON (bytes value)
-            bad = dict(fx.c2, extra=b'not json')
-            s.conn.send('config', pickle.dumps(bad))
-            accept = False
-            reply_type = 'config'
-        elif ev == 'config-malformed':          # a configuration message whose content is not a pickle
-            s.conn.send('config', b'this is not a pickle')
-            accept = False
-            reply_type = 'config'
-        elif ev == 'upload-malformed':          # an index upload without any content
-            s.conn.send('upload_edb', None)
-            accept = False
-            reply_type = 'upload_edb'
-        elif ev == 'search-malformed':          # a token of the wrong length
-            s.conn.send('token', b'xx', token_digest=b'')
-            accept = False
-            reply_type = 'result'
+        which = {'config1': 1, 'config2': 2, 'upload1': 1, 'upload2': 2}.get(ev)
+        accept = {'config1': md['state'] == 0, 'config2': md['state'] == 0, 'upload1': md['state'] == 1, 'upload2': md['state'] == 1,
+                  'search': md['state'] == 2, 'search-other': md['state'] == 2}.get(ev, False)
+        reply_type = {'config1': 'config', 'config2': 'config', 'upload1': 'upload_edb', 'upload2': 'upload_edb', 'search': 'result', 'search-other': 'result',
+                      'foreign-sid': 'config', 'unknown-type': None, 'no-sid': 'config', 'config-unstorable': 'config', 'config-malformed': 'config',
+                      'upload-malformed': 'upload_edb', 'search-malformed': 'result'}[ev]
+        for d in messages_for(fx, s.sid, ev):
+            s.conn.send_raw(d)
         fe.settle(s.w.loop, timers=False)
         msgs = [m for m in s.conn.new_messages() if m.get('type') != 'control']
         if not msgs and not s.conn.closed:
